@@ -201,6 +201,11 @@ var c04Pairs = [][3]string{
 	{"X-A", "1", "10"},
 	{"X-A", "1", "1 " + "2"},
 	{"Accept-Charset", "utf-8", "iso-8859-1"},
+	// a member with q=0 is "not acceptable": next to a wildcard that is not the same as leaving it out
+	{"Accept-Encoding", "*", "*, gzip;q=0"},
+	{"Accept", "*/*", "*/*, text/html;q=0"},
+	{"Accept-Language", "*, de;q=0.0", "*"},
+	{"Accept-Encoding", "gzip;q=0.000, *", "gzip;q=0.001, *"},
 	{"X-Api-Key", "alice", "bob"},
 	{"Dnt", "1", "0"},
 	{"Sec-Ch-Ua-Mobile", "?0", "?1"},
